@@ -230,6 +230,7 @@ def references():
 
 def prepare(tier, seed):
     references()
+    dirty_calls()       # computed once here, before the worker pool forks
     if tier == 'thorough':
         # opcode granularity must really be finer than line granularity on this interpreter (it silently was not on
         # CPython 3.12 until the instrumentation was warmed up); otherwise the thorough tier would claim more than it does
@@ -311,6 +312,8 @@ def ev_seq(case, rec):
         hists = [[a]]
         if depth >= 2:
             hists += [[a, b] for b in NAMES]
+            # the call again after one other call: [a, b, a] (a counter / second-use cache shows on the third step only)
+            hists += [[a, b, a] for b in NAMES]
         for h in hists:
             obs = in_child(lambda h=h: run_history(h))
             out.append((h, obs))
@@ -352,6 +355,23 @@ def traced_files(extra_modules=()):
 _DIRTY = {}
 
 
+def dirty_calls():
+    """alphabet calls whose single execution in a pristine interpreter changes module-level data of the library (a cache, a
+    scratch buffer, a counter).  They join the schedule-exploration seam, and their modules get scheduling points."""
+    if 'calls' not in _DIRTY:
+        out = {}
+        for n in NAMES:
+            d = in_child(lambda n=n: sorted(run_history([n])[0]['mod_diff']))
+            if d:
+                out[n] = d
+        _DIRTY['calls'] = out
+        mods = set()
+        for d in out.values():
+            mods.update(d)
+        _DIRTY['m'] = sorted(mods)
+    return _DIRTY['calls']
+
+
 def dirty_modules():
     """modules in which one sequential run of the whole alphabet changes module-level data (re-enables
     scheduling points there: a mutant that hoists a scratch buffer to module scope is preempted inside it)"""
@@ -373,6 +393,8 @@ def gen_sched(tier, seed):
     # quick: the reverse-direction / wrapper twins of calls already in the seam are left to the thorough tier
     seam = SEAM if tier == 'thorough' else [n for n in SEAM if n not in (
         'conform14_apm_rev', 'conform14_itrf08_rev', 'gda2020_to_atrf2014_vcv', 'atrf2014_to_gda2020_vcv', 'add_date_apm')]
+    # calls that leave module-level data behind (none on a pure tree) are thread-unsafe suspects whatever module they live in
+    seam = seam + [n for n in sorted(dirty_calls()) if n not in seam][:8]
     for i, a in enumerate(seam):
         for b in seam[i:]:
             if (a, b) in b2 or (b, a) in b2:
